@@ -342,9 +342,9 @@ func judgeBatch(cs *BatchCase, o *BatchObs) []scen.Finding {
 				}
 			}
 		}
-		firstFail := -1 // logical time of the first failed attempt / fallback (stop mode: the limit is judged before it only)
+		firstFail := -1 // logical time of the first item failure FOR GOOD — its last permitted attempt failed (no fallback installed) or its fallback failed (stop mode: the limit is judged before it only; an attempt that will be retried stops nothing)
 		for _, e := range o.Events {
-			if (e.Kind == "exec-ret" && !e.OK) || (e.Kind == "fallback" && !e.OK) {
+			if (e.Kind == "exec-ret" && !e.OK && (e.Attempt >= cs.Budget || (cs.ErrResult && cs.ExecStyle == "result")) && !cs.FB) || (e.Kind == "fallback" && !e.OK) || (e.Kind == "exec-ret" && !e.OK && cs.Prelude != nil) {
 				firstFail = e.Seq
 				break
 			}
